@@ -1106,6 +1106,26 @@ def rule_loopify(toks: List[Tok], items: List[Tuple[str, int, str]], rep: Report
                    Tok("punct", "{", first.pos, " "), syn(f"let {x} = it_s__{tag}[it_s__{tag}.len() - 1 - {idx}];", first.pos, " "), _stop(syn(f"it_o__{tag}.push(", first.pos, " "))] + body + \
                   [syn(f"); {idx} += 1;", toks[hi].pos, " "), Tok("punct", "}", toks[hi].pos, " "), syn(f"it_o__{tag} " + "}", toks[hi].pos, " ")]
             rep.rule("R17 vec.into_iter().rev().map(closure).collect() -> index loop (elements are Copy: checked by rustc in the generated unit)")
+        elif names[-3:] == ["into_iter", "map", "collect"]:
+            # R31  V.into_iter().map(|PAT| E).collect()  ->  take the elements out of V front to back (Vec::remove(0)), push E for each:
+            # the order and the ownership of into_iter (elements need not be Copy)
+            ci = len(calls) - 3
+            recv = recv_upto(ci)
+            cp = _closure_parts(toks, calls[ci + 1][1])
+            if cp is None or not re.fullmatch(r"\w+|\([\w,]+\)", cp[0]):
+                raise Undecided(f"R31: unsupported closure in {fn}")
+            x, body = cp
+            if any(t.kind == "ident" and t.text in ("return", "break", "continue") for t in body) or any(is_p(t, "?") for t in body):
+                raise Undecided(f"R31: closure of .map( in {fn} contains control flow")
+            rt = render(recv).strip()
+            body = list(body)
+            body[0] = Tok(body[0].kind, body[0].text, body[0].pos, " ")
+            ty_ann = f": Vec<{elem_ty}>" if elem_ty else ""
+            new = [syn("{ " + f"let mut it_v__{tag} = {rt}; let mut it_o__{tag}{ty_ann} = Vec::new();", first.pos, first.ws),
+                   Tok("ident", "while", first.pos, " "), syn(f"it_v__{tag}.len() > 0", first.pos, " "),
+                   Tok("punct", "{", first.pos, " "), _stop(syn(f"let {x.replace(',', ', ')} = it_v__{tag}.remove(0);", first.pos, " ")), _stop(syn(f"it_o__{tag}.push(", first.pos, " "))] + body + \
+                  [_stop(syn(");", toks[hi].pos, " ")), Tok("punct", "}", toks[hi].pos, " "), syn(f"it_o__{tag} " + "}", toks[hi].pos, " ")]
+            rep.rule("R31 vec.into_iter().map(closure).collect() -> loop taking the elements out front to back")
         elif names[-4:] == ["iter", "skip", "map", "collect"]:
             # R30  S.iter().skip(N).map(|&v| E).collect()  ->  push E for v = S[i], i = N, N+1, ... while i < len (nothing when N >= len)
             ci = len(calls) - 4
@@ -1126,7 +1146,7 @@ def rule_loopify(toks: List[Tok], items: List[Tuple[str, int, str]], rep: Report
             new = [syn("{ " + f"let it_s__{tag} = &{rt}; let mut it_o__{tag}{ty_ann} = Vec::new(); let mut {idx}: usize = {nt};", first.pos, first.ws),
                    Tok("ident", "while", first.pos, " "), syn(f"{idx} < it_s__{tag}.len()", first.pos, " "),
                    Tok("punct", "{", first.pos, " "), syn(bind, first.pos, " "), _stop(syn(f"it_o__{tag}.push(", first.pos, " "))] + body + \
-                  [syn(f"); {idx} += 1;", toks[hi].pos, " "), Tok("punct", "}", toks[hi].pos, " "), syn(f"it_o__{tag} " + "}", toks[hi].pos, " ")]
+                  [_stop(syn(");", toks[hi].pos, " ")), syn(f"{idx} += 1;", toks[hi].pos, " "), Tok("punct", "}", toks[hi].pos, " "), syn(f"it_o__{tag} " + "}", toks[hi].pos, " ")]
             rep.rule("R30 slice.iter().skip(n).map(closure).collect() -> index loop starting at n")
         elif names[-2:] == ["iter", "any"]:
             ci = len(calls) - 2
@@ -1813,10 +1833,13 @@ class UnitBuilder:
         fnq = ws.qual
         body = it.toks[it.body_open:]
         frags = {}
+        spans: Dict[str, Tuple[int, int]] = {}
+        subst_hits = set()
         wleafs: List[tuple] = []
         lifted = set()
         for name, anchor in ws.frags.items():
             toks = list(self.cut_fragment(body, anchor, fnq))
+            spans[name] = (toks[0].pos, toks[-1].end)
             self.rep.cuts.append({"item": f"{ws.name}.{name} ({anchor})", "file": s.rel,
                                   "bytes": [toks[0].pos, toks[-1].end], "lines": [s.line(toks[0].pos), s.line(toks[-1].end)]})
             if ws.desugar_try:
@@ -1848,19 +1871,30 @@ class UnitBuilder:
                 toks = rule_R2(toks, self.rep)
                 toks = rule_R3(toks, self.rep)
             for old, new in ws.substs:
-                if old.startswith("?"):
-                    try:
-                        toks = apply_subst(toks, old[1:], new, self.rep, fnq)
-                    except Undecided:
-                        pass
-                else:
-                    toks = apply_subst(toks, old, new, self.rep, fnq)
+                # a substitution of a wrap must apply in at least one of its fragments (`subst?`: may apply nowhere)
+                try:
+                    toks = apply_subst(toks, old.lstrip("?") if old.startswith("?") else old, new, self.rep, fnq)
+                    subst_hits.add(old)
+                except Undecided:
+                    pass
             if name in ws.frag_loops:
                 fake = FnSpec("fn", None, ws.name, ws.source)
                 fake.loops = ws.frag_loops[name]
                 toks = inject_loops(toks, fake, fnq)
             frags[name] = toks
             self.rep.rule("R11 fragment cut out of a function body and wrapped in a synthesised fn")
+        for old, _ in ws.substs:
+            if not old.startswith("?") and old not in subst_hits:
+                raise Undecided(f"lost anchor: subst `{old}` matches nothing in {fnq}")
+        # the fragments of a wrap, in the order the body uses them, must be adjacent in /repo up to the text declared in `gap A B = TEXT`
+        # (default: nothing): code that sits between two fragments would otherwise silently not be part of the verified text
+        order = re.findall(r"\{\{(\w+)\}\}", ws.body)
+        for a_, b_ in zip(order, order[1:]):
+            if a_ in spans and b_ in spans:
+                between = compact(lex(s.src[spans[a_][1]:spans[b_][0]])) if spans[a_][1] <= spans[b_][0] else None
+                want = compact(lex(ws.gaps.get((a_, b_), "")))
+                if between != want:
+                    raise Undecided(f"unaccounted code between fragments {a_} and {b_} of {fnq}: `{between}` (declared: `{want}`)")
         for lf in ws.lifts:
             if id(lf) not in lifted:
                 raise Undecided(f"lost anchor: lift {lf.mode} {lf.key}#{lf.k} in no fragment of {fnq}")
